@@ -22,6 +22,7 @@ type Step struct {
 	Plan       *script.Plan
 	AuthReject string // Tattach with AuthOps: the planned AuthCheck rejection ("" = accept)
 	Uid        int    // Tauth/Tattach: the user the request names
+	LateFlush  bool   // a Tflush of this request is decided while its answer is inside Respond (after the claim)
 	Probe      bool
 }
 
@@ -178,7 +179,35 @@ func (h *Hist) Do(st *Step) *wire.Msg {
 	h.Res.Count("requests_sent", 1)
 
 	seq0 := h.S.Log.Seq()
-	rep, err := c.Rpc(m, W)
+	var rep *Reply
+	var err error
+	if !st.LateFlush {
+		rep, err = c.Rpc(m, W)
+	} else {
+		// a Tflush that comes too late: the answer has been claimed inside Respond when the flush is decided; the
+		// request is answered and its whole effect on the fid table stands
+		hold := h.S.Ctl.HoldAt("respond.claimed", c.ID, int(m.Tag), sched.AnyTag, 20*time.Second)
+		_ = c.Send(m)
+		if hold.WaitReached(W) {
+			h.nextTag++
+			if h.nextTag == wire.NOTAG {
+				h.nextTag = 1
+			}
+			fl := &wire.Msg{Type: wire.Tflush, Oldtag: m.Tag, Tag: h.nextTag}
+			_ = c.Send(fl)
+			if h.S.Ctl.WaitPassed("flush.decided", c.ID, int(fl.Tag), 1, 2*time.Second) {
+				h.Res.Count("late_flushes_during_respond", 1)
+			}
+			hold.Release()
+			rep, err = c.WaitTag(m.Tag, W)
+			if _, ferr := c.WaitTag(fl.Tag, W); ferr != nil {
+				h.Res.Count("late_flush_unanswered", 1)
+			}
+		} else {
+			hold.Release()
+			rep, err = c.WaitTag(m.Tag, W)
+		}
+	}
 	if err != nil || rep == nil || rep.Msg == nil {
 		// no reply: not this engine's property to judge (C03/C06), but nothing more can be learnt
 		h.Res.Count("sessions_lost", 1)
